@@ -1335,6 +1335,208 @@ theorem replaceNode_spec {s : CellStore} (h : CellInv s) (old : Int) {new : Int}
     · rename_i hv
       exact hc2 (by simpa using hv)
 
+
+/-! ### `ref_cell_replace_whole` -/
+
+/-- overwrite the node entries `k ≤ j < node_per` of a row with those of `nodes` -/
+def overwriteFrom (np : Nat) (nodes : List Int) (k : Nat) (r : List Int) : List Int :=
+  r.mapIdx fun j v => if k ≤ j ∧ j < np then nodes.getD j (-1) else v
+
+theorem overwriteFrom_set {np : Nat} {nodes : List Int} {k : Nat} {r : List Int} (hk : k < r.length)
+    (hnp : k < np) :
+    overwriteFrom np nodes (k + 1) (r.set k (nodes.getD k (-1))) = overwriteFrom np nodes k r := by
+  apply List.ext_getElem?
+  intro j
+  simp only [overwriteFrom, List.getElem?_mapIdx, List.getElem?_set]
+  by_cases hkj : k = j
+  · subst hkj
+    have h1 : ¬ (k + 1 ≤ k) := by omega
+    simp [hk, h1, hnp]
+  · simp only [hkj, if_false]
+    cases hr : r[j]? with
+    | none => rfl
+    | some v =>
+      simp only [Option.map_some]
+      have : (k + 1 ≤ j) ↔ (k ≤ j) := by omega
+      simp only [this]
+
+theorem overwriteFrom_top {np : Nat} {nodes : List Int} {k : Nat} {r : List Int} (h : np ≤ k) :
+    overwriteFrom np nodes k r = r := by
+  apply List.ext_getElem?
+  intro j
+  simp only [overwriteFrom, List.getElem?_mapIdx]
+  cases hr : r[j]? with
+  | none => rfl
+  | some v =>
+    have : ¬ (k ≤ j ∧ j < np) := by omega
+    simp [this]
+
+theorem replaceWholeLoop_spec {cell : Int} {nodes : List Int} :
+    ∀ (todo k : Nat) (s : CellStore), CellInv s → s.validCell cell = true → k + todo = s.nodePer →
+      (∀ j, j < s.nodePer → 0 ≤ nodes.getD j (-1)) →
+      ∃ r, replaceWholeLoop s cell nodes todo k = (.ok, r) ∧ CellInv r ∧ SameShape r s ∧
+        (∀ c, c ≠ cell.toNat → r.row c = s.row c) ∧
+        r.row cell.toNat = overwriteFrom s.nodePer nodes k (s.row cell.toNat) := by
+  intro todo
+  induction todo with
+  | zero =>
+    intro k s h hv hk _
+    exact ⟨s, rfl, h, SameShape.refl s, fun _ _ => rfl, (overwriteFrom_top (by omega)).symm⟩
+  | succ todo ih =>
+    intro k s h hv hk hnn
+    have hklt : k < s.nodePer := by omega
+    obtain ⟨_, hlt, _⟩ := validCell_iff.1 hv
+    have hrl := row_length h hlt
+    have hkr : k < (s.row cell.toNat).length := by have := h.per.2.1; omega
+    have hnew := hnn k hklt
+    obtain ⟨hok1, hok2, hinv', hval', _, _⟩ := replaced_spec h hv hklt hnew
+    obtain ⟨hshape', hrows', hrow'⟩ := replaced_shape h hv hklt hnew
+    have hstep : replaceWholeLoop s cell nodes (todo + 1) k =
+        replaceWholeLoop (replaced s cell k (nodes.getD k (-1))) cell nodes todo (k + 1) := by
+      simp only [replaceWholeLoop, hok1, hok2, ne_eq, not_true_eq_false, if_false]
+      rfl
+    obtain ⟨r, hr, hrinv, hrshape, hrrows, hrrow⟩ :=
+      ih (k + 1) (replaced s cell k (nodes.getD k (-1))) hinv' hval' (by rw [hshape'.np]; omega)
+        (by rw [hshape'.np]; exact hnn)
+    refine ⟨r, by rw [hstep]; exact hr, hrinv, hrshape.trans hshape', ?_, ?_⟩
+    · intro c hc; rw [hrrows c hc, hrows' c hc]
+    · rw [hrrow, hrow', hshape'.np]
+      exact overwriteFrom_set hkr hklt
+
+/-- writing an entry at a position `≥ node_per` (the id) of a valid cell changes nothing else -/
+theorem setId_CellInv {t u : CellStore} (h : CellInv t) {cell : Int} (hv : t.validCell cell = true)
+    {p : Nat} (hp : t.nodePer ≤ p) {x : Int}
+    (hnp : u.nodePer = t.nodePer) (hsp : u.sizePer = t.sizePer)
+    (hc2n : u.c2n = t.c2n.set cell.toNat ((t.row cell.toNat).set p x))
+    (hbl : u.blank = t.blank) (hn : u.n = t.n) (hadj : u.adj = t.adj) :
+    CellInv u ∧ (∀ c, u.validCell c = t.validCell c) := by
+  have hfull := h
+  obtain ⟨hper, hrows, ⟨l, hc, hnd, hmem⟩, hcount, hnonneg, hadj0⟩ := h
+  obtain ⟨h0, hlt, hlive⟩ := validCell_iff.1 hv
+  have hi : cell.toNat < t.c2n.length := hlt
+  have hcl : cell.toNat ∉ l := fun hm => hlive ((hmem _ hlt).1 hm)
+  have hrl := row_length hfull hlt
+  have hp0 : p ≠ 0 := by omega
+  have hlive' : ((t.row cell.toNat).set p x).getD 0 (-1) ≠ -1 := by
+    rw [List.getD_eq_getElem?_getD, List.getElem?_set_ne hp0, ← List.getD_eq_getElem?_getD]
+    exact hlive
+  have hvalid : ∀ c, u.validCell c = t.validCell c := by
+    intro c
+    by_cases hcc : c = cell
+    · subst hcc
+      rw [hv, validCell_iff]
+      refine ⟨h0, by simpa [CellStore.max, hc2n] using hi, ?_⟩
+      simp only [c2nAt, row, hc2n, getD_rows_set_self hi]
+      exact hlive'
+    · exact validCell_set_ne hc2n (by omega)
+  have hnodes : ∀ c, t.validCell c = true → u.cellNodes c = t.cellNodes c := by
+    intro c hvc
+    by_cases hci : c.toNat = cell.toNat
+    · rw [cellNodes_set_self hc2n hi hci, hnp, List.take_set_of_le hp]
+      simp only [cellNodes, hci]
+    · exact cellNodes_set_ne hc2n hnp hci
+  refine ⟨⟨by rw [hnp, hsp]; exact hper, ?_, ⟨l, ?_, hnd, ?_⟩, ?_, ?_, ?_⟩, hvalid⟩
+  · intro r hr
+    rw [hc2n] at hr
+    rw [hsp]
+    rcases List.mem_or_eq_of_mem_set hr with hr | hr
+    · exact hrows r hr
+    · rw [hr, List.length_set]; exact hrl
+  · rw [hc2n, hbl]; exact hc.set_of_not_mem hcl
+  · intro j hj
+    simp only [CellStore.max, hc2n, List.length_set] at hj
+    simp only [c2nAt, row, hc2n]
+    by_cases hji : j = cell.toNat
+    · subst hji
+      rw [getD_rows_set_self hi]
+      exact ⟨fun hm => absurd hm hcl, fun he => absurd he hlive'⟩
+    · rw [getD_rows_set_ne hji]
+      exact hmem j hj
+  · rw [hn, hc2n, List.countP_set hi, hcount]
+    have h1 : liveRow t.c2n[cell.toNat] = true := by
+      rw [liveRow_iff, ← getD_rows_eq_getElem hi]; exact hlive
+    have h2 : liveRow ((t.row cell.toNat).set p x) = true := liveRow_iff.2 hlive'
+    have h3 : 0 < t.c2n.countP liveRow := List.countP_pos_iff.2 ⟨_, List.getElem_mem hi, h1⟩
+    simp only [h1, h2, if_true]
+    omega
+  · intro c hvc v hvm
+    rw [hvalid c] at hvc
+    rw [hnodes c hvc] at hvm
+    exact hnonneg c hvc v hvm
+  · intro v c
+    rw [hadj, hadj0 v c, hvalid c]
+    split
+    · rename_i hvc; rw [hnodes c hvc]
+    · rfl
+
+/-- `ref_cell_replace_whole` of a valid cell with non-negative nodes: succeeds, keeps the invariant, the
+    cell's row becomes `nodes`, no other row changes -/
+theorem replaceWhole_spec {s : CellStore} (h : CellInv s) {cell : Int} (hv : s.validCell cell = true)
+    {nodes : List Int} (hlen : nodes.length = s.sizePer) (hnn : ∀ v ∈ nodes.take s.nodePer, 0 ≤ v) :
+    ∃ r, s.replaceWhole cell nodes = (.ok, r) ∧ CellInv r ∧ (∀ c, r.validCell c = s.validCell c) ∧
+      (∀ c, c ≠ cell.toNat → r.row c = s.row c) ∧ r.row cell.toNat = nodes := by
+  have hnn' : ∀ j, j < s.nodePer → 0 ≤ nodes.getD j (-1) := by
+    intro j hj
+    have hjl : j < nodes.length := by have := h.per.2.1; omega
+    apply hnn
+    rw [List.mem_take_iff_getElem]
+    refine ⟨j, by rw [Nat.lt_min]; exact ⟨hj, hjl⟩, ?_⟩
+    rw [List.getD_eq_getElem?_getD, List.getElem?_eq_getElem hjl]; rfl
+  obtain ⟨r, hr, hrinv, hrshape, hrrows, hrrow⟩ := replaceWholeLoop_spec s.nodePer 0 s h hv (by omega) hnn'
+  obtain ⟨h0, hlt, _⟩ := validCell_iff.1 hv
+  have hrl := row_length h hlt
+  have hvr : r.validCell cell = true := by rw [hrshape.valid]; exact hv
+  have hltr : cell.toNat < r.c2n.length := by
+    have := hrshape.max; simp only [CellStore.max] at this hlt; omega
+  simp only [replaceWhole, hv, Bool.not_true, Bool.false_eq_true, if_false, hr, ne_eq, not_true_eq_false]
+  by_cases hid : s.sizePer > s.nodePer
+  · simp only [hid, if_true]
+    have hsp1 : s.sizePer - 1 = s.nodePer := by have := h.per.2.2.2; omega
+    obtain ⟨hinv2, hvalid2⟩ := setId_CellInv (t := r)
+      (u := { r with c2n := r.c2n.set cell.toNat ((r.row cell.toNat).set (s.sizePer - 1)
+        (nodes.getD (s.sizePer - 1) (-1))) }) hrinv hvr (p := s.sizePer - 1)
+      (by rw [hrshape.np]; omega) rfl rfl rfl rfl rfl rfl
+    refine ⟨_, rfl, hinv2, fun c => (hvalid2 c).trans (hrshape.valid c), ?_, ?_⟩
+    · intro c hc
+      simp only [row, getD_rows_set_ne hc]
+      exact hrrows c hc
+    · simp only [row, getD_rows_set_self hltr]
+      rw [show r.c2n.getD cell.toNat [] = r.row cell.toNat from rfl, hrrow]
+      apply List.ext_getElem?
+      intro j
+      simp only [List.getElem?_set, overwriteFrom, List.getElem?_mapIdx, List.length_mapIdx, hrl, hsp1]
+      by_cases hj : s.nodePer = j
+      · subst hj
+        have : s.nodePer < s.sizePer := hid
+        have hjl : s.nodePer < nodes.length := by omega
+        simp [this, List.getD_eq_getElem?_getD, List.getElem?_eq_getElem hjl]
+      · simp only [hj, if_false]
+        by_cases hjl : j < s.sizePer
+        · have hjn : j < s.nodePer := by omega
+          have hjr : j < (s.row cell.toNat).length := by omega
+          have hjnodes : j < nodes.length := by omega
+          rw [List.getElem?_eq_getElem hjr, List.getElem?_eq_getElem hjnodes]
+          simp [hjn, List.getD_eq_getElem?_getD, List.getElem?_eq_getElem hjnodes]
+        · have h1 : (s.row cell.toNat)[j]? = none := List.getElem?_eq_none (by omega)
+          have h2 : nodes[j]? = none := List.getElem?_eq_none (by omega)
+          rw [h1, h2]; rfl
+  · simp only [hid, if_false]
+    have hsp : s.sizePer = s.nodePer := by have := h.per.2.1; omega
+    refine ⟨r, rfl, hrinv, hrshape.valid, hrrows, ?_⟩
+    rw [hrrow]
+    apply List.ext_getElem?
+    intro j
+    simp only [overwriteFrom, List.getElem?_mapIdx]
+    by_cases hjl : j < s.sizePer
+    · have hjr : j < (s.row cell.toNat).length := by omega
+      have hjnodes : j < nodes.length := by omega
+      have hjn : j < s.nodePer := by omega
+      rw [List.getElem?_eq_getElem hjr, List.getElem?_eq_getElem hjnodes]
+      simp [hjn, List.getD_eq_getElem?_getD, List.getElem?_eq_getElem hjnodes]
+    · have h1 : (s.row cell.toNat)[j]? = none := List.getElem?_eq_none (by omega)
+      have h2 : nodes[j]? = none := List.getElem?_eq_none (by omega)
+      rw [h1, h2]; rfl
+
 end CellStore
 
 end Refine.Model.CellStore
